@@ -273,6 +273,7 @@ package soyhtml
 //@   ghost recd bool = false
 //@   at call recover#0 after set recd = res != nil
 //@   ensures[assigns-error] recd ==> *errp != nil
+//@   ensures[assigns-positioned-error;C19] recd ==> typeis(*errp, *errortypes.errFilePos)
 
 // range(): the materialisation loop terminates for every argument list
 // (a non-positive increment is rejected before the loop). Type assertions on
@@ -328,6 +329,7 @@ package soyhtml
 //@   at call (*Registry).ColNumber#0 after set cn = res
 //@   at call errortypes.NewErrFilePosf#0 assert[file-line-col;C19] arg0 == fname && arg1 == ln && arg2 == cn
 //@   ensures[non-nil] result != nil
+//@   ensures[is-positioned;C19] typeis(result, *errortypes.errFilePos)
 
 // eval leaves the "current node" where it was: after evaluating a
 // sub-expression the state again points at the enclosing command, so the error
@@ -358,6 +360,9 @@ package soyhtml
 //@   mapwrites owned
 //@   at entry set renderBase = allocmark()
 //@   at call (*state).walk#0 assert[owned-frame-above-caller-data;C08] scopeOK(arg0.context) && len(arg0.context) >= 2
+//@   ghost started bool = false
+//@   at call (*state).walk#0 set started = true
+//@   ensures[render-errors-are-positioned;C19] started && result != nil ==> typeis(result, *errortypes.errFilePos)
 //@   recoverby (*state).errRecover
 //@   requires[registry-built-by-Add] t.tofu != nil && t.tofu.registry != nil ==> registryOK(t.tofu.registry)
 
